@@ -252,6 +252,10 @@ structure St where
   transitionsChecked : Nat := 0
   paidChecked : Nat := 0
   acceptsChecked : Nat := 0
+  /-- recorded htlcs that share the htlc id with an htlc of the same invoice on another channel /
+      share the channel with another htlc of the same invoice -/
+  sameIdOtherChan : Nat := 0
+  sameChanOtherId : Nat := 0
   hist : List (String × Nat) := []
   clauseHits : List (String × Nat) := []
   samples : Nat := 0
@@ -407,7 +411,11 @@ def finishOp (s : St) : IO St := do
         s := { s with intro := (n.key, n) :: s.intro }
         -- the htlc was accepted (held or settled) into an invoice: address rule at accept time
         if let some (d, _) := findHtlcD s.cur n.key then
-          s := { s with acceptsChecked := s.acceptsChecked + 1 }
+          let x1 : Nat := if d.htlcs.any (fun g => g.key != n.key && ckeyHtlc g.key == ckeyHtlc n.key) then 1 else 0
+          let x2 : Nat := if d.htlcs.any (fun g => g.key != n.key && ckeyChan g.key == ckeyChan n.key) then 1 else 0
+          s := { s with acceptsChecked := s.acceptsChecked + 1,
+                        sameIdOtherChan := s.sameIdOtherChan + x1,
+                        sameChanOtherId := s.sameChanOtherId + x2 }
           if let some (cl, why) := addrViolation n d.addr (d.feat.contains 'P') then
             s ← monitor s cl s!"htlc {keyStr n.key} accepted ({s.opRes.take 40}) into invoice {d.hash} with payment address {d.addr} (feat {d.feat}): {why}"
   -- concurrent group: every call of the group is treated like the notify of this operation
@@ -732,6 +740,8 @@ def main (args : List String) : IO Unit := do
   IO.println s!"STAT nontrivial={s.nontrivial}"
   IO.println s!"STAT settle_resolutions_checked={s.settlesChecked}"
   IO.println s!"STAT accepts_address_checked={s.acceptsChecked}"
+  IO.println s!"STAT htlcs_same_id_other_channel={s.sameIdOtherChan}"
+  IO.println s!"STAT htlcs_same_channel_other_id={s.sameChanOtherId}"
   IO.println s!"STAT replays_checked={s.replaysChecked}"
   IO.println s!"STAT invoice_transitions_checked={s.transitionsChecked}"
   IO.println s!"STAT settled_dumps_checked={s.paidChecked}"
